@@ -110,6 +110,7 @@ static struct {
 	long           stackPad;
 	/* fill */
 	int            wash;		/* -1 leave alone, 0 off, 1 on */
+	int            gcLevel;		/* -1 leave alone, 1 demand, 2 automatic */
 	/* collection schedule */
 	unsigned long  gcAt[MAXGCAT]; int nGcAt; int gcAtCur;
 	struct { unsigned long a, len; } gcWin[MAXSMALL]; int nGcWin;
@@ -158,6 +159,7 @@ static void planLoad(void)
 	P.loaded = 1;
 	P.sbrkCap = 1UL << 30;
 	P.wash = -1;
+	P.gcLevel = -1;
 	P.gcCap = 400;
 	P.clockBase = 1000000000L;
 	P.pid = 4242;
@@ -200,6 +202,7 @@ static void planLoad(void)
 			}
 			else P.wash = 0;
 		}
+		else if (!strcmp(w[0], "gclevel")) P.gcLevel = (int) L(1);
 		else if (!strcmp(w[0], "fill")) {	/* fill bytes only; washing itself left to the world */
 			stoVerifNewFill  = (unsigned char) strtoul(w[1], 0, 16);
 			stoVerifFreeFill = (unsigned char) strtoul(w[2], 0, 16);
@@ -360,6 +363,7 @@ static void simAllocHook(unsigned code, unsigned long nbytes)
 	inHook = 1;
 	ix = ++nAlloc;
 	if (P.wash >= 0) stoCtl(StoCtl_Wash, P.wash);
+	if (P.gcLevel > 0) stoCtl(1 /* StoCtl_GcLevel */, P.gcLevel);
 	if (P.traceAllocs) simLog("A %lu %lu %u\n", ix, nbytes, code);
 
 	while (P.gcAtCur < P.nGcAt && P.gcAt[P.gcAtCur] < ix) P.gcAtCur++;
